@@ -20,6 +20,7 @@ CONSTANTS Protos,      \* subset of {257 (TLCP), 771 (TLS 1.2), 772 (TLS 1.3)}
           CredCases    \* set of credential-defect records explored, see Honest below
 
 VARIABLES proto, mutual,      \* configuration of this run
+          cmutual,            \* the client's view: has the server asked for a certificate (CertificateRequest is optional for the client)
           cred,               \* [sOK, sPoss, sEnc, cCert, cOK, cPoss] : credential facts (C09)
           cpc, spc,           \* 0 = failed, 1..Len(prog) running, Len+1 = handshake complete
           c2m, m2s, s2m, m2c, \* sender->proxy and proxy->receiver record queues
@@ -33,7 +34,7 @@ VARIABLES proto, mutual,      \* configuration of this run
           capp, sapp,         \* application records written so far
           cacc, sacc          \* application records accepted so far (ghost)
 
-vars == <<proto, mutual, cred, cpc, spc, c2m, m2s, s2m, m2c, held, first, ctr, str, cwseq, swseq, crseq, srseq,
+vars == <<proto, mutual, cmutual, cred, cpc, spc, c2m, m2s, s2m, m2c, held, first, ctr, str, cwseq, swseq, crseq, srseq,
           csent, ssent, cgot, sgot, budget, hsFault, closed, capp, sapp, cacc, sacc>>
 
 S(m) == [op |-> "send", m |-> m]
@@ -43,12 +44,12 @@ IsTls13 == proto = 772
 
 ClientProg ==
   IF ~IsTls13 THEN
-       <<S("CH"), R("SH"), R("CERT_S"), R("SKE")>> \o Opt(mutual, <<R("CR")>>) \o <<R("SHD")>>
-    \o Opt(mutual, <<S("CERT_C")>>) \o <<S("CKE")>> \o Opt(mutual /\ cred.cCert, <<S("CV_C")>>)
+       <<S("CH"), R("SH"), R("CERT_S"), R("SKE")>> \o Opt(cmutual, <<R("CR")>>) \o <<R("SHD")>>
+    \o Opt(cmutual, <<S("CERT_C")>>) \o <<S("CKE")>> \o Opt(cmutual /\ cred.cCert, <<S("CV_C")>>)
     \o <<S("CCS_C"), S("FIN_C"), R("CCS_S"), R("FIN_S")>>
-  ELSE <<S("CH"), R("SH"), R("EE")>> \o Opt(mutual, <<R("CR")>>)
+  ELSE <<S("CH"), R("SH"), R("EE")>> \o Opt(cmutual, <<R("CR")>>)
     \o <<R("CERT_S"), R("CV_S"), R("FIN_S")>>
-    \o Opt(mutual, <<S("CERT_C")>>) \o Opt(mutual /\ cred.cCert, <<S("CV_C")>>) \o <<S("FIN_C")>>
+    \o Opt(cmutual, <<S("CERT_C")>>) \o Opt(cmutual /\ cred.cCert, <<S("CV_C")>>) \o <<S("FIN_C")>>
 ServerProg ==
   IF ~IsTls13 THEN
        <<R("CH"), S("SH"), S("CERT_S"), S("SKE")>> \o Opt(mutual, <<S("CR")>>) \o <<S("SHD")>>
@@ -104,7 +105,7 @@ CSend == /\ CRunning /\ ClientProg[cpc].op = "send"
             /\ ctr' = IF InTranscript(m) THEN Append(ctr, <<m, TRUE>>) ELSE ctr
             /\ cwseq' = IF Protected(m) THEN cwseq + 1 ELSE (IF m = "CCS_C" THEN 0 ELSE cwseq)
          /\ cpc' = cpc + 1
-         /\ UNCHANGED <<proto, mutual, cred, spc, m2s, s2m, m2c, held, first, str, swseq, crseq, srseq, ssent, cgot, sgot,
+         /\ UNCHANGED <<proto, mutual, cmutual, cred, spc, m2s, s2m, m2c, held, first, str, swseq, crseq, srseq, ssent, cgot, sgot,
                         budget, hsFault, closed, capp, sapp, cacc, sacc>>
 CRecvOK == /\ CRunning /\ ClientProg[cpc].op = "recv" /\ m2c # <<>>
            /\ LET m == ClientProg[cpc].m  r == Head(m2c) IN
@@ -112,7 +113,7 @@ CRecvOK == /\ CRunning /\ ClientProg[cpc].op = "recv" /\ m2c # <<>>
               /\ ctr' = IF InTranscript(m) THEN Append(ctr, <<m, r.ok>>) ELSE ctr
               /\ crseq' = IF Protected(m) THEN crseq + 1 ELSE crseq
            /\ cgot' = Append(cgot, Head(m2c)) /\ m2c' = Tail(m2c) /\ cpc' = cpc + 1
-           /\ UNCHANGED <<proto, mutual, cred, spc, c2m, m2s, s2m, held, first, str, cwseq, swseq, srseq, csent, ssent, sgot,
+           /\ UNCHANGED <<proto, mutual, cmutual, cred, spc, c2m, m2s, s2m, held, first, str, cwseq, swseq, srseq, csent, ssent, sgot,
                           budget, hsFault, closed, capp, sapp, cacc, sacc>>
 (* An endpoint may give up during the handshake only if the run is not honest any more (some   *)
 (* fault was applied, some credential is defective, the proxy closed) or nothing can arrive.   *)
@@ -122,15 +123,22 @@ CFail == /\ CRunning /\ ClientProg[cpc].op = "recv"
          /\ cpc' = 0
          /\ \/ c2m' = Append(c2m, Rec("ALERT", ctr, cwseq, FALSE))
             \/ c2m' = c2m
-         /\ UNCHANGED <<proto, mutual, cred, spc, m2s, s2m, m2c, held, first, ctr, str, cwseq, swseq, crseq, srseq, csent, ssent,
+         /\ UNCHANGED <<proto, mutual, cmutual, cred, spc, m2s, s2m, m2c, held, first, ctr, str, cwseq, swseq, crseq, srseq, csent, ssent,
                         cgot, sgot, budget, hsFault, closed, capp, sapp, cacc, sacc>>
+(* CertificateRequest is optional from the client's point of view: when the next message is the one that follows it, *)
+(* the client carries on without client authentication (the server, which asked, will then refuse)                    *)
+CSkipCR == /\ CRunning /\ cmutual /\ ClientProg[cpc] = R("CR") /\ m2c # <<>>
+           /\ Head(m2c).m = (IF IsTls13 THEN "CERT_S" ELSE "SHD")
+           /\ cmutual' = FALSE
+           /\ UNCHANGED <<proto, mutual, cred, cpc, spc, c2m, m2s, s2m, m2c, held, first, ctr, str, cwseq, swseq, crseq, srseq, csent, ssent,
+                          cgot, sgot, budget, hsFault, closed, capp, sapp, cacc, sacc>>
 SSend == /\ SRunning /\ ServerProg[spc].op = "send"
          /\ LET m == ServerProg[spc].m  r == Rec(m, str, swseq, TRUE) IN
             /\ s2m' = Append(s2m, r) /\ ssent' = Append(ssent, r)
             /\ str' = IF InTranscript(m) THEN Append(str, <<m, TRUE>>) ELSE str
             /\ swseq' = IF Protected(m) THEN swseq + 1 ELSE (IF m = "CCS_S" THEN 0 ELSE swseq)
          /\ spc' = spc + 1
-         /\ UNCHANGED <<proto, mutual, cred, cpc, c2m, m2s, m2c, held, first, ctr, cwseq, crseq, srseq, csent, cgot, sgot,
+         /\ UNCHANGED <<proto, mutual, cmutual, cred, cpc, c2m, m2s, m2c, held, first, ctr, cwseq, crseq, srseq, csent, cgot, sgot,
                         budget, hsFault, closed, capp, sapp, cacc, sacc>>
 SRecvOK == /\ SRunning /\ ServerProg[spc].op = "recv" /\ m2s # <<>>
            /\ LET m == ServerProg[spc].m  r == Head(m2s) IN
@@ -138,7 +146,7 @@ SRecvOK == /\ SRunning /\ ServerProg[spc].op = "recv" /\ m2s # <<>>
               /\ str' = IF InTranscript(m) THEN Append(str, <<m, r.ok>>) ELSE str
               /\ srseq' = IF Protected(m) THEN srseq + 1 ELSE srseq
            /\ sgot' = Append(sgot, Head(m2s)) /\ m2s' = Tail(m2s) /\ spc' = spc + 1
-           /\ UNCHANGED <<proto, mutual, cred, cpc, c2m, s2m, m2c, held, first, ctr, cwseq, swseq, crseq, csent, ssent, cgot,
+           /\ UNCHANGED <<proto, mutual, cmutual, cred, cpc, c2m, s2m, m2c, held, first, ctr, cwseq, swseq, crseq, csent, ssent, cgot,
                           budget, hsFault, closed, capp, sapp, cacc, sacc>>
 SStarved == m2s = <<>> /\ c2m = <<>> /\ held.c2s = <<>> /\ (closed \/ cpc = 0 \/ cpc = CDone)
 SFail == /\ SRunning /\ ServerProg[spc].op = "recv"
@@ -146,33 +154,33 @@ SFail == /\ SRunning /\ ServerProg[spc].op = "recv"
          /\ spc' = 0
          /\ \/ s2m' = Append(s2m, Rec("ALERT", str, swseq, TRUE))
             \/ s2m' = s2m
-         /\ UNCHANGED <<proto, mutual, cred, cpc, c2m, m2s, m2c, held, first, ctr, str, cwseq, swseq, crseq, srseq, csent, ssent,
+         /\ UNCHANGED <<proto, mutual, cmutual, cred, cpc, c2m, m2s, m2c, held, first, ctr, str, cwseq, swseq, crseq, srseq, csent, ssent,
                         cgot, sgot, budget, hsFault, closed, capp, sapp, cacc, sacc>>
 
 (* ------------------------------ data phase (record level) ------------------------------ *)
 CEmit(m) == /\ cpc = CDone
             /\ c2m' = Append(c2m, Rec(m, ctr, cwseq, FALSE)) /\ cwseq' = cwseq + 1 /\ capp' = capp + 1
-            /\ UNCHANGED <<proto, mutual, cred, cpc, spc, m2s, s2m, m2c, held, first, ctr, str, swseq, crseq, srseq, csent, ssent,
+            /\ UNCHANGED <<proto, mutual, cmutual, cred, cpc, spc, m2s, s2m, m2c, held, first, ctr, str, swseq, crseq, srseq, csent, ssent,
                            cgot, sgot, budget, hsFault, closed, sapp, cacc, sacc>>
 SEmit(m) == /\ spc = SDone
             /\ s2m' = Append(s2m, Rec(m, str, swseq, TRUE)) /\ swseq' = swseq + 1 /\ sapp' = sapp + 1
-            /\ UNCHANGED <<proto, mutual, cred, cpc, spc, c2m, m2s, m2c, held, first, ctr, str, cwseq, crseq, srseq, csent, ssent,
+            /\ UNCHANGED <<proto, mutual, cmutual, cred, cpc, spc, c2m, m2s, m2c, held, first, ctr, str, cwseq, crseq, srseq, csent, ssent,
                            cgot, sgot, budget, hsFault, closed, capp, cacc, sacc>>
 (* accepting a data record: only an intact record of the completed peer, under the agreed key, in sequence *)
 CAccept(m) == /\ cpc = CDone /\ m2c # <<>> /\ Accepts(Head(m2c), m, ctr, crseq, FALSE)
               /\ m2c' = Tail(m2c) /\ crseq' = crseq + 1 /\ cacc' = cacc + 1
-              /\ UNCHANGED <<proto, mutual, cred, cpc, spc, c2m, m2s, s2m, held, first, ctr, str, cwseq, swseq, srseq, csent, ssent,
+              /\ UNCHANGED <<proto, mutual, cmutual, cred, cpc, spc, c2m, m2s, s2m, held, first, ctr, str, cwseq, swseq, srseq, csent, ssent,
                              cgot, sgot, budget, hsFault, closed, capp, sapp, sacc>>
 SAccept(m) == /\ spc = SDone /\ m2s # <<>> /\ Accepts(Head(m2s), m, str, srseq, TRUE)
               /\ m2s' = Tail(m2s) /\ srseq' = srseq + 1 /\ sacc' = sacc + 1
-              /\ UNCHANGED <<proto, mutual, cred, cpc, spc, c2m, s2m, m2c, held, first, ctr, str, cwseq, swseq, crseq, csent, ssent,
+              /\ UNCHANGED <<proto, mutual, cmutual, cred, cpc, spc, c2m, s2m, m2c, held, first, ctr, str, cwseq, swseq, crseq, csent, ssent,
                              cgot, sgot, budget, hsFault, closed, capp, sapp, cacc>>
 (* a data record that is not acceptable is discarded with an error (the connection is then dead for this reader) *)
 CReject == /\ cpc = CDone /\ m2c # <<>> /\ ~Accepts(Head(m2c), Head(m2c).m, ctr, crseq, FALSE) /\ m2c' = Tail(m2c) /\ cpc' = 0
-           /\ UNCHANGED <<proto, mutual, cred, spc, c2m, m2s, s2m, held, first, ctr, str, cwseq, swseq, crseq, srseq, csent, ssent,
+           /\ UNCHANGED <<proto, mutual, cmutual, cred, spc, c2m, m2s, s2m, held, first, ctr, str, cwseq, swseq, crseq, srseq, csent, ssent,
                           cgot, sgot, budget, hsFault, closed, capp, sapp, cacc, sacc>>
 SReject == /\ spc = SDone /\ m2s # <<>> /\ ~Accepts(Head(m2s), Head(m2s).m, str, srseq, TRUE) /\ m2s' = Tail(m2s) /\ spc' = 0
-           /\ UNCHANGED <<proto, mutual, cred, cpc, c2m, s2m, m2c, held, first, ctr, str, cwseq, swseq, crseq, srseq, csent, ssent,
+           /\ UNCHANGED <<proto, mutual, cmutual, cred, cpc, c2m, s2m, m2c, held, first, ctr, str, cwseq, swseq, crseq, srseq, csent, ssent,
                           cgot, sgot, budget, hsFault, closed, capp, sapp, cacc, sacc>>
 
 (* ------------------------------ the proxy / adversary ------------------------------ *)
@@ -196,7 +204,7 @@ FwdC2S(fault) ==
     /\ c2m' = Tail(c2m)
     /\ budget' = IF fault = "none" THEN budget ELSE budget - 1
     /\ hsFault' = (hsFault \/ (fault # "none" /\ SRunning))
-    /\ UNCHANGED <<proto, mutual, cred, cpc, spc, s2m, m2c, ctr, str, cwseq, swseq, crseq, srseq, csent, ssent, cgot, sgot,
+    /\ UNCHANGED <<proto, mutual, cmutual, cred, cpc, spc, s2m, m2c, ctr, str, cwseq, swseq, crseq, srseq, csent, ssent, cgot, sgot,
                    closed, capp, sapp, cacc, sacc>>
 FwdS2C(fault) ==
     /\ s2m # <<>>
@@ -207,13 +215,13 @@ FwdS2C(fault) ==
     /\ s2m' = Tail(s2m)
     /\ budget' = IF fault = "none" THEN budget ELSE budget - 1
     /\ hsFault' = (hsFault \/ (fault # "none" /\ CRunning))
-    /\ UNCHANGED <<proto, mutual, cred, cpc, spc, c2m, m2s, ctr, str, cwseq, swseq, crseq, srseq, csent, ssent, cgot, sgot,
+    /\ UNCHANGED <<proto, mutual, cmutual, cred, cpc, spc, c2m, m2s, ctr, str, cwseq, swseq, crseq, srseq, csent, ssent, cgot, sgot,
                    closed, capp, sapp, cacc, sacc>>
 ProxyClose == /\ ~closed /\ closed' = TRUE
-              /\ UNCHANGED <<proto, mutual, cred, cpc, spc, c2m, m2s, s2m, m2c, held, first, ctr, str, cwseq, swseq, crseq, srseq,
+              /\ UNCHANGED <<proto, mutual, cmutual, cred, cpc, spc, c2m, m2s, s2m, m2c, held, first, ctr, str, cwseq, swseq, crseq, srseq,
                              csent, ssent, cgot, sgot, budget, hsFault, capp, sapp, cacc, sacc>>
 
-Init == /\ proto \in Protos /\ mutual \in BOOLEAN /\ cred \in CredCases
+Init == /\ proto \in Protos /\ mutual \in BOOLEAN /\ cmutual = mutual /\ cred \in CredCases
         /\ cpc = 1 /\ spc = 1
         /\ c2m = <<>> /\ m2s = <<>> /\ s2m = <<>> /\ m2c = <<>>
         /\ held = [c2s |-> <<>>, s2c |-> <<>>] /\ first = [c2s |-> <<>>, s2c |-> <<>>]
@@ -222,7 +230,7 @@ Init == /\ proto \in Protos /\ mutual \in BOOLEAN /\ cred \in CredCases
         /\ budget = Budget /\ hsFault = FALSE /\ closed = FALSE
         /\ capp = 0 /\ sapp = 0 /\ cacc = 0 /\ sacc = 0
 
-Endpoint == CSend \/ CRecvOK \/ CFail \/ SSend \/ SRecvOK \/ SFail
+Endpoint == CSend \/ CRecvOK \/ CFail \/ CSkipCR \/ SSend \/ SRecvOK \/ SFail
 Data == (capp < MaxApp /\ CEmit("APP")) \/ (sapp < MaxApp /\ SEmit("APP")) \/ CAccept("APP") \/ SAccept("APP") \/ CReject \/ SReject
 Proxy == (\E f \in Faults : FwdC2S(f) \/ FwdS2C(f)) \/ (budget < Budget /\ ProxyClose)
 Next == Endpoint \/ Data \/ Proxy
